@@ -1,16 +1,29 @@
 #!/bin/bash
 # full build: all .vo (no -vos/-vok), extraction, OCaml driver. Incremental; serialised by a lock.
+# Stage 1 (must succeed): Base, Model, Proofs, Dispatch, Props/Cxx.v, extraction, driver.
+# Stage 2 (per group, failures isolated): the scalar Python kernels of /repo are RE-TRANSLATED from the current source
+#   (tools/pytrans.py -> coq/Gen/Py*.v, fail-closed) and the tie theorems (coq/Tie/*.v, coq/Props/Cxx_tie.v) are re-checked
+#   against what the code says now.  A group that no longer translates or whose proofs no longer check leaves no .vo
+#   behind; the proof gate of the properties it serves then fails (harness/engine.py), the others are unaffected.
 cd "$(dirname "$0")/.."
 exec 9>/verif/.build.lock
 flock 9
+/venv/bin/python tools/pytrans.py --src ${PHYST_SRC:-/repo/src/physt} --outdir coq/Gen 2> coq/.pytrans.log
 tools/mkproject.sh
 ulimit -s unlimited 2>/dev/null || true
-timeout 3000 make -C coq -j16 > coq/.make.log 2>&1
+cd coq
+MAIN=$(ls Base/*.v Model/*.v Proofs/*.v Dispatch.v Props/C??.v | sed 's/\.v$/.vo/')
+TIE=$(ls Gen/*.v Tie/*.v Props/C??_tie.v 2>/dev/null | sed 's/\.v$/.vo/')
+timeout 3000 make -j16 $MAIN > .make.log 2>&1
 rc=$?
+cd ..
 grep -v "^COQDEP\|^COQC\|^make\|^CLEAN" coq/.make.log
 if [ $rc -ne 0 ]; then echo "build FAILED (make rc=$rc)"; exit 1; fi
 if [ ! -x ocaml/driver ] || [ coq/Dispatch.vo -nt ocaml/driver ] || [ ocaml/driver.ml -nt ocaml/driver ] || [ coq/Extract.v -nt ocaml/driver ]; then
   (cd coq && timeout 900 coqc -Q . Physt Extract.v >/dev/null && mv model.ml model.mli ../ocaml/) || { echo "extraction FAILED"; exit 1; }
   (cd ocaml && timeout 900 ocamlfind ocamlopt -O3 -unboxed-types 2>/dev/null; timeout 900 ocamlfind ocamlopt -package zarith -linkpkg -w -a model.mli model.ml driver.ml -o driver) || { echo "ocaml FAILED"; exit 1; }
 fi
+# stage 2: never fatal here
+for t in $TIE; do rm -f coq/${t%.vo}.failed; done
+(cd coq && timeout 3000 make -k -j16 $TIE > .tie.log 2>&1) || { cat coq/.pytrans.log; grep -B2 -A12 "^Error\|Error:" coq/.tie.log | head -60; echo "tie: some translated kernels no longer check (see coq/.tie.log)"; }
 echo "build ok"
